@@ -16,49 +16,67 @@ THEOREMS = ["Typedpy.C15." + t for t in (
     "name_keyed_registry_breaks_frame", "inplace_required_breaks_frame", "registry_fixed_example",
     "required_fixed_example", "C15_statement_fails_with_findings", "counterexamples_are_excluded",
     "frame_example", "camel_key_dropped_breaks_frame", "refs_example", "nested_frame_example",
-    "nested_create_example", "mro_serializer_breaks_frame", "C15_statement_fails_today")]
+    "nested_create_example", "mro_serializer_breaks_frame", "C15_statement_fails_today", "construct_result_frame",
+    "construct_result_unchanged_by_use", "construct_result_example", "use_state_frame", "use_state_frame_today",
+    "state_frame_example")]
 RULE = ("histories of 2-5 (thorough: 2-7) class definitions — roots, subclasses, Omit/Pick/Partial/AllFieldsRequired/"
         "Extend-derived classes, FastSerializable classes, same-named classes, snake_case field names of which half "
         "come from a small pool so that unrelated classes share field names, renamed serialization keys, fields that "
         "implicitly wrap 1-4 user classes of which several share a __name__ (Field[U], Array[U]), ClassReference "
-        "fields, positional Arrays of two Structure item types (Array(items=[A, B])), 18 kinds of self-contained "
-        "typedpy fields incl. two field-factory functions shared by all classes and inline StructureReference — "
-        "interleaved with 2-8 (thorough: 2-25) uses (construct, serialize and deserialize with camel_case_convert "
-        "on or off as a use-parameter, structure_to_schema, create_serializer, trusted deserialization) and "
-        "toggles/restores of 3 global defaults; a fifth of the histories are FastSerializable hierarchies that "
-        "refer to each other (fast root, 1-2 fast subclasses adding fields, 1-2 owners — fast or not — with direct / "
-        "Array / optional ClassReference fields to them, owners of owners) used in random order incl. "
-        "create_serializer with serialize_none / compact, instantiation and serialization of the MINIMAL instance "
-        "(optional references omitted, arrays of classes empty): these are outside the Lean model's vocabulary and "
-        "judged by the fresh-interpreter oracle alone (an explicit create_serializer with flags, and a plain one after "
-        "it, counts as configuration of that class and is replayed in its 'alone' run); an eighth are classes WRITTEN TO A MODULE FILE on disk (from __future__ import annotations, or quoted references) "
-        "partly at module level, partly inside one or two functions, with class names from a pool of four so that a function-local "
-        "and a module-level class often share a name, fields referring to other classes by name; the prim vocabulary includes "
-        "DateString/TimeString/DateField/TimeField/DateTime/IPV4/HostName/DecimalNumber/JSONString with and without defaults; "
-        "schema_to_struct_code is a history op and part of the fingerprint; plus ~240 directed histories: the two repaired defects, FastSerializable base/subclass/owner triples with the serializers generated in "
-        "every order, positional "
-        "item classes sharing a mapped field name with the container used before/after the items, every derivation "
-        "operator on a class with optional/defaulted/renamed fields, the same class serialized with both "
-        "camel_case_convert values in every order.  Each history runs against the real typedpy in a process forked "
-        "from a pristine interpreter; every class is then re-defined ALONE (only the definitions it depends on + the "
-        "default toggles) in another pristine process; behaviour fingerprints (accept/reject vector with stored "
-        "values over <= 60 probe argument sets incl. instances of every user class, serialize / compact / camel-case "
-        "/ Serializer / .serialize(), deserialize incl. camel-case round trip, missing and extra keys, trusted "
-        "deserialization, None-assignment, del, extra attribute, _required, wrapper targets, JSON schema) are "
-        "compared; the Lean World model runs the same history and its per-step observations (definition success, "
-        "wrapper targets, keys emitted by serialize, schema 'required', _required), final class state and "
-        "interference verdict per class are compared with the real code.  non-trivial = >= 3 ops; distinct by "
-        "sha256 of the case")
+        "fields, positional Arrays of two Structure item types (Array(items=[A, B])), 30 kinds of self-contained "
+        "typedpy fields incl. two field-factory functions shared by all classes, inline StructureReference and three "
+        "AnyOf fields whose options OVERLAP and normalise differently (AnyOf[DateField, String], [Integer, Float], "
+        "[Enum, String]) — interleaved with 2-8 (thorough: 2-25) uses (construct, serialize and deserialize with "
+        "camel_case_convert on or off as a use-parameter, structure_to_schema, schema_to_struct_code, create_serializer, "
+        "trusted deserialization; a quarter of the uses with the SECOND valid value of every field, one only a later "
+        "AnyOf option accepts) and toggles/restores of 3 global defaults; a fifth of the histories are FastSerializable "
+        "hierarchies that refer to each other (fast root, 1-2 fast subclasses adding fields, 1-2 owners — fast or not — "
+        "with direct / Array / optional ClassReference fields to them, owners of owners, owner-side '<field>._mapper' "
+        "entries naming keys of the nested class) used in random order incl. create_serializer with serialize_none / "
+        "compact, instantiation and serialization of the MINIMAL instance (optional references omitted, arrays of classes "
+        "empty): these are IN the Lean model (nested cache fills, nested serializer generation, flags bound at generation, "
+        "late lookup through the MRO); an explicit create_serializer with flags, and a plain one after it, counts as "
+        "configuration of that class and is replayed in its 'alone' run (Lean: sliceK); an eighth are classes WRITTEN TO "
+        "A MODULE FILE on disk (from __future__ import annotations, or quoted references) partly at module level, partly "
+        "inside one or two functions, with class names from a pool of four so that a function-local and a module-level "
+        "class often share a name, fields referring to other classes by name; plus ~330 directed histories: the repaired "
+        "defects, FastSerializable base/subclass/owner triples with the serializers generated in every order, owner-side "
+        "nested mappers with the owner's serializer generated before the nested class is used, the open finding "
+        "(owner of a class whose serializer cannot be generated, base class used first), base/derived pairs sharing an "
+        "overlapping AnyOf field object through every derivation operator, positional item classes sharing a mapped "
+        "field name with the container, every derivation operator on a class with optional/defaulted/renamed fields, the "
+        "same class serialized with both camel_case_convert values in every order.  Each history runs against the real "
+        "typedpy in a process forked from a pristine interpreter; every class is then re-defined ALONE (only the "
+        "definitions it depends on + the default toggles + its serializer configurations) in another pristine process; "
+        "behaviour fingerprints (accept/reject vector with stored values AND error texts over <= 60 probe argument sets "
+        "incl. instances of every user class and the minimal instance, constructor signature, serialize / compact / "
+        "camel-case / Serializer / .serialize(), deserialize incl. camel-case round trip, missing and extra keys, trusted "
+        "deserialization, None-assignment, del, extra attribute, _required, wrapper targets, JSON schema, schema-to-code "
+        "text, generated .pyi stub text) are compared; the Lean World model runs the same history (with the instances the "
+        "executor builds for the arguments as explicit constructions) and its per-step observations (definition success, "
+        "wrapper targets, keys emitted by serialize, shape of x.serialize() with nested documents, the set of classes "
+        "owning a generated serializer after EVERY step, create_serializer success, instantiability, schema 'required', "
+        "_required), final class state and interference verdict per class are compared with the real code; for the "
+        "classes whose fields all have a FieldDecl, Sem/Validate's constructor run on the declaration assembled from the "
+        "model's VIEW is compared with the real constructor (accept / exception class) on the concrete probe arguments. "
+        "non-trivial = >= 3 ops; distinct by sha256 of the case")
 ASSUMPTIONS = [
-    "PARTIAL: only process-wide state that extract/registries.py can see (module/class-level containers, lru_cache, "
-    "TypedPyDefaults/Structure globals, cls.x writes, in-place writes to definition attributes) is in the model; the "
+    "PARTIAL: only process-wide state that extract/registries.py can see is in the model (module/class-level containers "
+    "incl. unkeyed ones, lru_cache, TypedPyDefaults/Structure switches and who writes them, cls.x writes, in-place writes "
+    "to definition attributes, attributes written onto Field objects at use time, mutable default arguments, closure "
+    "cells, configuration captured at generation time, class-attribute memos read through the MRO); the "
     "fresh-interpreter comparison is the backstop for everything else",
-    "sharing one Field instance between classes is excluded (documented as unsupported)",
+    "sharing one Field instance between unrelated fields is excluded (documented as unsupported); a Field object shared "
+    "through inheritance / derivation IS in scope",
     "a class defined while a global default is toggled keeps what was captured at definition; 'alone' replays the "
     "same toggles around the same definitions",
-    "the model does not follow ClassReference fields through create_serializer / nested serialization (coherent cache "
-    "fills and serializer installs on the referenced classes): FastSerializable classes get no ClassReference fields "
-    "and ClassReference fields point at non-FastSerializable classes only",
+    "an explicit create_serializer(cls, serialize_none/compact) is configuration of cls (kept in the class's own "
+    "sub-history), also for the classes that refer to cls",
+    "the repr of a class inside error texts lists the generated serializer attributes of the class; these are erased "
+    "from the compared texts (they are compared as state: ownSerialize / created)",
+    "OPEN FINDING excluded from the theorem and reproduced by directed histories: a FastSerializable owner of a class "
+    "whose own serializer cannot be generated (mro-resolved-serialize-skips-generation)",
+    "positional arrays of FastSerializable item classes are judged by the oracle alone",
     "uniqueness features (@unique, off by default) are history-dependent by design and outside the claim",
     "PYTHONHASHSEED=0",
 ]
@@ -75,11 +93,11 @@ def pre_build():
 
 
 def cases(rng, tier):
-    return S.announce(S.gen_cases(rng, tier, 1200 if tier == "quick" else 14000))
+    return S.announce(S.gen_cases(rng, tier, 800 if tier == "quick" else 12000))
 
 
 def search_cases(rng, tier):
-    return S.announce(S.gen_cases(rng, "thorough", 1500))
+    return S.announce(S.gen_cases(rng, "thorough", 1500, directed=False))
 
 
 run_impl = S.run_impl
